@@ -1,6 +1,7 @@
 import GixModel.Lemmas.C26
 import GixModel.Lemmas.C26Append
 import GixModel.Lemmas.C26Append2
+import GixModel.Lemmas.C26Append3
 /-
 C26 — Config files round-trip losslessly.  PROPERTY THEOREMS ONLY.
 
@@ -126,7 +127,8 @@ theorem file_reparse_uniform_newlines (bs : Bytes) (f : File) (h : fileFromBytes
     (hl : render f.events = bs) (hbom : noBomHead bs = true) (hcr : bs.getLast? ≠ some 13)
     (hfin : f.normal = true ∨
       (f.aug = f.events ++ [.newline (detectNewline f)] ∧
-        ∃ e, f.events.getLast? = some e ∧ (isValueEnd e = true ∨ evIsWs e = true ∨ isHeaderEv e = true))) :
+        ∃ e, f.events.getLast? = some e ∧ (isValueEnd e = true ∨ evIsWs e = true ∨ isHeaderEv e = true ∨
+          (isComment e = true ∧ detectNewline f = [10])))) :
     ∃ g, fileFromBytes f.write = some g ∧ g.entries = f.entries ∧ g.headers = f.headers := by
   rcases hfin with hn | ⟨ha, e, hle, hv⟩
   · exact ⟨f, file_reparse_partial bs f h hl hn, rfl, rfl⟩
@@ -138,13 +140,22 @@ theorem file_reparse_uniform_newlines (bs : Bytes) (f : File) (h : fileFromBytes
       rw [this] at ha
       have := congrArg List.length ha
       simp at this
-    have hlo : LastOk f.events := by
-      refine ⟨e, hle, ?_⟩
-      rcases hv with hv | hv | hv
-      · exact Or.inl (by simp [isGoodEnd, hv])
-      · exact Or.inl (by simp [isGoodEnd, hv])
-      · exact Or.inr hv
-    rw [hw, fileFromBytes_app_eq2 (detectNewline_NL f) h hbom hcr hsec hlo]
+    have hfile : fileFromBytes (bs ++ detectNewline f) = some (fileOfEvents (f.events ++ [.newline (detectNewline f)])) := by
+      by_cases hnl : detectNewline f = [10]
+      · rw [hnl]
+        refine fileFromBytes_app_eqG (Or.inl rfl) eofOk_lf isGoodEndLf_toReal h hbom hcr hsec ⟨e, hle, ?_⟩
+        rcases hv with hv | hv | hv | hv
+        · exact Or.inl (by simp [isGoodEndLf, isGoodEnd, hv])
+        · exact Or.inl (by simp [isGoodEndLf, isGoodEnd, hv])
+        · exact Or.inr hv
+        · exact Or.inl (by simp [isGoodEndLf, hv.1])
+      · refine fileFromBytes_app_eq2 (detectNewline_NL f) h hbom hcr hsec ⟨e, hle, ?_⟩
+        rcases hv with hv | hv | hv | hv
+        · exact Or.inl (by simp [isGoodEnd, hv])
+        · exact Or.inl (by simp [isGoodEnd, hv])
+        · exact Or.inr hv
+        · exact absurd hv.2 hnl
+    rw [hw, hfile]
     refine ⟨_, rfl, ?_⟩
     have := fileOfEvents_snoc_nl (detectNewline f) f.events
     rw [fileOfEvents_of_parsed h] at this
